@@ -89,7 +89,9 @@ def replay (toJson : α → Json) : Prog α → RSt → ReplayOut
       { ok := false, outcome := errName e, why := s!"model failed ({errName e}) but the implementation went on with {ev.name} {showArgs ev.args}" }
   | .panic site, st =>
     let unused := (List.range st.evs.size).filter fun i => !(st.used.getD i true)
-    { ok := unused.isEmpty, outcome := "panic:" ++ site, why := if unused.isEmpty then "" else "model panics but the implementation went on" }
+    -- Go runs deferred calls while a panic unwinds: the only calls that may follow are deferred Unlocks
+    let rest := unused.filter fun i => (st.evs[i]!).name != "unlock"
+    { ok := rest.isEmpty, outcome := "panic:" ++ site, why := if rest.isEmpty then "" else "model panics but the implementation went on" }
   | .call (.setHeader hk hv) k, st => replay toJson (k ()) { st with headers := st.headers ++ [(hk, hv)] }
   | .call c k, st =>
     let (name, args) := encCall c
